@@ -33,7 +33,10 @@ Proof. intros H E. rewrite Forall_forall in H. apply H. eapply nth_error_In, E. 
 Global Arguments set_node : simpl never.
 
 (* (a, b) = (c, d) without any simplification of the components *)
-Ltac pinj H := apply pair_equal_spec in H; let a := fresh in let b := fresh in destruct H as [a b]; subst.
+Ltac pinj H :=
+  apply pair_equal_spec in H; let a := fresh "Ea" in let b := fresh "Eb" in destruct H as [a b];
+  try (match type of a with ?x = ?y => first [subst y | subst x] end);
+  try (match type of b with ?x = ?y => first [subst y | subst x] end).
 
 (* ------------------------------------------------------------------------------------------ *)
 (* the monitor fold: what observations can change *)
